@@ -30,6 +30,10 @@ def build(ctx, rule):
         g = desugar_ifexp(_ti(repo, f0, keep=is_key_extraction))
         if g is not f0 and any(isinstance(l, ast.For) and isinstance(l.iter, ast.Name) for l in walk_own(g.node)):
             g = unroll_const_loops(sink_into_branches(g))  # `slots = (0, 1) if c else (1,); for s in slots: ...`
+        if any(isinstance(c, ast.Call) and isinstance(c.func, ast.Attribute) and c.func.attr == "join" and const_value(c.func.value, None) == "" for c in walk_own(g.node)):
+            from ..core import string_builders
+
+            g = string_builders(g)  # the output line assembled through a list and one "".join
         return inline_pure_temps(inline_bool_temps(rotate_primed_loops(g)))
 
     for f in [_nf(f0) for f0 in mod.funcs.values()]:
